@@ -163,6 +163,29 @@ func getRespFromCache(msgKey string, backend *cache.Cache[key, *item], lazyCache
 	return nil, false
 }
 
+// negativeTtl returns the lifetime of a negative response r. It is
+// maxTtl seconds, but not longer than the minimal ttl of r's records,
+// if r has any.
+func negativeTtl(r *dns.Msg, maxTtl uint32) time.Duration {
+	ttl := maxTtl
+	if hasTtlRecord(r) {
+		ttl = min(ttl, dnsutils.GetMinimalTTL(r))
+	}
+	return time.Duration(ttl) * time.Second
+}
+
+// hasTtlRecord reports whether m has a record that has a ttl. (OPT hasn't.)
+func hasTtlRecord(m *dns.Msg) bool {
+	for _, section := range [...][]dns.RR{m.Answer, m.Ns, m.Extra} {
+		for _, rr := range section {
+			if rr.Header().Rrtype != dns.TypeOPT {
+				return true
+			}
+		}
+	}
+	return false
+}
+
 // saveRespToCache saves r to cache backend. It returns false if r
 // should not be cached and was skipped.
 func saveRespToCache(msgKey string, r *dns.Msg, backend *cache.Cache[key, *item], lazyCacheTtl int) bool {
@@ -174,10 +197,10 @@ func saveRespToCache(msgKey string, r *dns.Msg, backend *cache.Cache[key, *item]
 	var cacheTtl time.Duration
 	switch r.Rcode {
 	case dns.RcodeNameError:
-		msgTtl = time.Second * 30
+		msgTtl = negativeTtl(r, 30)
 		cacheTtl = msgTtl
 	case dns.RcodeServerFailure:
-		msgTtl = time.Second * 5
+		msgTtl = negativeTtl(r, 5)
 		cacheTtl = msgTtl
 	case dns.RcodeSuccess:
 		minTTL := dnsutils.GetMinimalTTL(r)
